@@ -150,6 +150,18 @@ theorem gpbLookup_spec {b : Nat} {s c : Recs} (hj : GpbJ b s c) (i : Nat) : gpbL
   | succ i ih =>
     rw [gpbLookup_succ c i hj.sorted, ← hj.agree, ih]; rfl
 
+/-- GetGASPerBlock on the append-only cache returns the LAST record with index ≤ i: a record appended with an index
+    ≤ i wins over everything before it (two records of the same index: the later one, as storage keeps it) … -/
+theorem gpbLookup_append_le (l : Recs) (k : Nat) (v : Int) (i : Nat) (h : k ≤ i) :
+    gpbLookup (l ++ [(k, v)]) i = some v := by
+  simp [gpbLookup, h]
+
+/-- … and a record appended with a greater index is invisible at i -/
+theorem gpbLookup_append_gt (l : Recs) (k : Nat) (v : Int) (i : Nat) (h : i < k) :
+    gpbLookup (l ++ [(k, v)]) i = gpbLookup l i := by
+  have : ¬ k ≤ i := by omega
+  simp [gpbLookup, this]
+
 -- InitializeCache ------------------------------------------------------------------------------------------------------
 
 theorem insertRec_perm (x : Nat × Int) (l : Recs) : (insertRec x l).Perm (x :: l) := by
